@@ -1,6 +1,7 @@
 package main
 
 import (
+	"errors"
 	"flag"
 	"fmt"
 	"os"
@@ -28,7 +29,13 @@ func main() {
 	}
 
 	if err := fs.Parse(os.Args[1:]); err != nil {
-		panic(err)
+		// The flag set has already printed its usage for -h and -help.
+		if errors.Is(err, flag.ErrHelp) {
+			os.Exit(0)
+		}
+
+		u.Errorf(ui.Red, "%s", err)
+		os.Exit(2)
 	}
 
 	// Update the verbosity level.
